@@ -412,14 +412,14 @@ def checkUnterminated (total : Bytes) (o : WireObs) : Verdict :=
 /-- a message that is not UTF-8 is not JSON, whatever a lenient parser makes of it -/
 def validUtf8 (b : Bytes) : Bool := String.validateUTF8 ⟨b.toArray⟩
 
-def P_C06 (cfg : WireCfg) (fs : List Frame) (total : Bytes) (o : WireObs) : Verdict :=
+def P_C06 (cfg : WireCfg) (fs : List Frame) (total : Bytes) (envelopeBad : List Bytes) (o : WireObs) : Verdict :=
   if o.panicked then some "panic" else
   match checkUnterminated total o with
   | some r => some r
   | none =>
   -- index of the first malformed frame (judged on the decoded frame AND on the raw bytes)
   let raw := (frames total).1
-  let k := (fs.zip raw).findIdx fun (f, b) => isMalformedFrame f || !validUtf8 b
+  let k := (fs.zip raw).findIdx fun (f, b) => isMalformedFrame f || !validUtf8 b || envelopeBad.contains b
   if k ≥ fs.length then none else
   let laterToks := (fs.drop k).filterMap fun f => match f with
     | .req r => tokenOfJson r.parameters
